@@ -7,7 +7,7 @@ use serde_json::{json, Value};
 pub const DEF: PropDef = PropDef {
     id: "C15",
     level: "exploration",
-    rule: "40 base programs with up to 3 name placeholders in every name position (targets, operands, subscripts, listen, build/knock, rock/roll, mutation operand / destination, parameters, function and call names, poetic assignment, pronoun referents, erroring uses, 's / 're contractions, a name shared by a function and a parameter or variable); for each: all 6^k fillings from three name kinds x two alphabets (simple zed / élan, common the zed / my élan, proper Zed Yod / Élan Über Zed; distinct words per placeholder so that distinct spellings denote distinct variables); for every filling every single mention re-cased in each admissible way (proper names keep their capitals), all mentions re-cased at once, (thorough) all pairs of re-cased mentions, and all keywords upper-cased / title-cased / aLtErNaTeD / AlTeRnAtEd; oracle (metamorphic, no reference interpreter): stdout and outcome class equal those of the all-simple-lowercase filling; non-trivial = every case (two executions compared); distinct = distinct program text",
+    rule: "54 base programs with up to 3 name placeholders in every name position (targets, operands, subscripts, listen, build/knock, rock/roll, mutation operand / destination, parameters, function and call names, poetic assignment, pronoun referents, erroring uses, 's / 're contractions, a name shared by a function and a parameter or variable); for each: all 6^k fillings from three name kinds x two alphabets (simple zed / élan, common the zed / my élan, proper Zed Yod / Élan Über Zed; distinct words per placeholder so that distinct spellings denote distinct variables); for every filling every single mention re-cased in each admissible way (proper names keep their capitals), all mentions re-cased at once, (thorough) all pairs of re-cased mentions, and all keywords upper-cased / title-cased / aLtErNaTeD / AlTeRnAtEd; plus 16 pairs of confusable names (same letters with other word breaks, with / without article, other article, with / without accent, swapped words) in 6 shapes, both orders; oracle (metamorphic, no reference interpreter): stdout and outcome class equal those of the all-simple-lowercase filling; non-trivial = every case (two executions compared); distinct = distinct program text",
     assumptions: &["error messages quote names as spelled and are therefore compared by class (ok / runtime error / parse error) only"],
     build,
     exhaustive: true,
@@ -57,7 +57,69 @@ pub const BASES: &[&str] = &[
     "@1 takes @2\ngive back @2\n\nsay 1\n@1 takes @3\ngive back 5\n\nsay @1 taking 2\n",
     "put 1 into @1\nsay 1\n@1 takes @2\ngive back @2\n\nsay 2\nsay @1\n",
     "rock @1 with 1\nlet @1 at @1 be 2\nsay @1\n",
+    // a local in one scope, then a later scope of every kind (the shapes of C05's scope family)
+    "if true\nput 1 into @1\nsay @1\n\nif true\nsay @1\n\n",
+    "if true\nput 1 into @1\n\nif true\nrock @1 with 5\nsay @1\n\n",
+    "if true\nput 1 into @1\n\nif false\nsay 0\nelse\nsay @1\n\n",
+    "put 0 into c\nwhile c is less than 3\nbuild c up\nrock @1 with 1\nsay @1\n\n",
+    "put 0 into c\nwhile c is less than 2\nbuild c up\nif c is 2\nsay @1\n\nput c into @1\n\n",
+    "put 0 into c\nuntil c is 2\nbuild c up\nrock @2 with c\nsay @2\nput 1 into @1\n\nif true\nsay @1\n\n",
+    "mk takes k\nput k into @1\ngive back @1\n\nsay mk taking 1\nif true\nsay @1\n\n",
+    "mk takes @1\ngive back @1\n\nsay mk taking 1\nmo takes k\ngive back @1\n\nsay mo taking 2\n",
+    "mk takes @1\nrock @1 with 1\ngive back @1\n\nsay mk taking 1\nsay mk taking 1\nsay mk taking 1\n",
+    "mk takes k\n@2 takes j\ngive back j plus 1\n\ngive back @2 taking k\n\nsay mk taking 1\nif true\nsay @2 taking 2\n\n",
+    "if true\nput 1 into @1\n\nsay 5\nuntil true\nsay 6\n\nif true\nput 2 into @2\nsay @2\nsay @1\n\n",
+    "if true\nif true\nput 1 into @1\n\nif true\nsay @1\n\n\n",
+    "put 7 into @1\nif true\nput 1 into @1\nput 2 into @2\n\nsay @1\nif true\nsay @2\n\n",
+    "mk takes k\nif k\nput 1 into @1\n\nif k\nsay @1\n\ngive back 0\n\nsay mk taking 1\n",
 ];
+
+/// pairs of names that a lossy key (dropped word breaks, dropped article, folded accents) would merge
+pub const CONFUSABLE: &[(&str, &str)] = &[
+    ("Sun Dance", "Sund Ance"),
+    ("Zed Yod", "Zedyod"),
+    ("Zed Yod Qux", "Zed Yodqux"),
+    ("Zed Yod Qux", "Zedyod Qux"),
+    ("Ab Cd", "Abc D"),
+    ("the zed", "thezed"),
+    ("the zed", "a zed"),
+    ("the zed", "zed"),
+    ("my zed", "your zed"),
+    ("the zed", "The Zedd"),
+    ("élan", "elan"),
+    ("zed", "zéd"),
+    ("Élan Zed", "Elan Zed"),
+    ("zed", "zedd"),
+    ("Zed Yod", "Yod Zed"),
+    ("Yod Zed Qux", "Yod Qux Zed"),
+];
+pub const CONFUSABLE_SHAPES: &[&str] = &[
+    "put 1 into A\nput 2 into B\nsay A\nsay B\n",
+    "fun takes A and B\nsay A\nsay B\ngive back A minus B\n\nsay fun taking 5, 3\n",
+    "A takes k\ngive back 1\n\nB takes k\ngive back 2\n\nsay A taking 0\nsay B taking 0\n",
+    "rock A with 1\nrock B with 2, 3\nsay A\nsay B\nput 9 into A\nsay B\n",
+    "put 1 into A\nif true\nput 2 into B\nsay A\n\nsay A\n",
+    "A takes B\ngive back B plus 1\n\nsay A taking 1\n",
+];
+
+fn confusable_case(idx: u64) -> (String, String, String) {
+    let n = CONFUSABLE.len() as u64;
+    let sh = CONFUSABLE_SHAPES[(idx / (2 * n)) as usize];
+    let (a, b) = CONFUSABLE[((idx / 2) % n) as usize];
+    let (a, b) = if idx % 2 == 0 { (a, b) } else { (b, a) };
+    let fill = |x: &str, y: &str| -> String {
+        let mut out = String::new();
+        for ch in sh.chars() {
+            match ch {
+                'A' => out.push_str(x),
+                'B' => out.push_str(y),
+                c => out.push(c),
+            }
+        }
+        out
+    };
+    (fill("zed", "yod"), fill(a, b), format!("confusable names {:?} / {:?}", a, b))
+}
 
 /// per placeholder: (spelling, kind) — kind 0 simple, 1 common, 2 proper
 pub const POOLS: [[(&str, u8); 6]; 3] = [
@@ -285,16 +347,18 @@ fn class(r: &subject::ExecResult) -> &'static str {
 
 impl Check for C15 {
     fn families(&self) -> Vec<(String, u64)> {
-        vec![("base x filling x re-casing".into(), self.cases.len())]
+        vec![("base x filling x re-casing".into(), self.cases.len()), ("confusable name pairs".into(), (CONFUSABLE.len() * CONFUSABLE_SHAPES.len() * 2) as u64)]
     }
-    fn describe(&self, _fam: usize, idx: u64) -> Value {
-        match self.programs(idx) {
+    fn describe(&self, fam: usize, idx: u64) -> Value {
+        let progs = if fam == 1 { Some(confusable_case(idx)) } else { self.programs(idx) };
+        match progs {
             Some((r, t, how)) => json!({"text": t, "reference_program": r, "transformation": how}),
             None => json!({"text": "<variant does not apply>"}),
         }
     }
-    fn run_case(&self, _fam: usize, idx: u64, ctx: &mut Ctx) {
-        let (reference, transformed, how) = match self.programs(idx) {
+    fn run_case(&self, fam: usize, idx: u64, ctx: &mut Ctx) {
+        let progs = if fam == 1 { Some(confusable_case(idx)) } else { self.programs(idx) };
+        let (reference, transformed, how) = match progs {
             Some(x) => x,
             None => {
                 ctx.count("variant_not_applicable");
